@@ -277,3 +277,17 @@ prop("C06", level="exploration", bounded=True,
      note="Exploration level; the kernels are harness programs, never presented as repository code. Populate and swizzle/split are bounded-only (C05, C09, C08).",
      also=["__and__.and_iterator.__iter__", "Payload.__mul__", "Payload.__iadd__", "Payload.__rmul__"],
      trusted_base=[])
+
+prop("C15", level="exploration", bounded=True,
+     technique="bounded: kernels with collection on vs off and against operation counts taken by the harness; deductive core: operator count contracts + AST obligations",
+     text="Proved core: every Payload/CoordPayload operator moves the three compute counters by exactly the stated amounts when collecting and not at all "
+          "otherwise (ghost-counter abstraction of Metrics.incCount; the '+= onto a zero box is an update, not an add' convention is the library's pinned "
+          "one), and returns the same values either way (C11 contracts are proved without assuming the flag). Structural obligations decided on the AST "
+          "on every run: beginCollect unconditionally assigns every class attribute of Metrics (list read from the class) a fresh literal; in iterRange, "
+          "iterRangeShape(Ref), and/or/populate iterators, getPayload(Ref) every Metrics call other than isCollecting() is control-dependent on a "
+          "collection flag. Bounded (not proved): seeded random kernels of the C06 family with random subsets of (rank, trace type) registered, output "
+          "sometimes pre-populated: results with collection on == off, Compute counts == operations counted by the harness, iter-trace rows == loop "
+          "bodies per rank, and a second identical session after an unrelated one reproduces dump and trace files exactly.",
+     note="Exploration level. Metrics' dictionaries are outside pyvc's heap model; incCount is a trusted abstraction cross-checked at run time here.",
+     also=["Payload.__add__", "Payload.__radd__", "Payload.__mul__", "Payload.__rmul__", "Payload.__iadd__", "Payload.__imul__", "Payload.__ilshift__"],
+     trusted_base=["Metrics.incCount ghost-counter abstraction"])
